@@ -1,12 +1,16 @@
 import DV
-/-! Negation with a concrete witness for the completeness clause of C14 (not an obligation). -/
+/-! Witnesses around the completeness clause of C14 (not obligations).
+
+Before the repair of P14 in `/repo` (success = `|f(b)| ≤ tol` only) the solver reported failure on the
+jump below although it had located the sign change; the model of that code was replaced together with
+the code, so what is kept here is the behaviour after the repair on the same input. -/
 namespace DVP.Findings.C14
 open DV DV.Brent
 
-/-- P14: a jump from -1 to +1 at 1/3 is bracketed by [0, 1], yet the solver reports failure: the
-success test is `|f(b)| ≤ tol` and `|f| = 1` everywhere -/
-theorem jump_no_success :
+/-- a jump from -1 to +1 at 1/3 is bracketed by [0, 1]: `|f| = 1` everywhere, the sign change is located to
+within `tol` and — since the repair — reported as a success -/
+theorem jump_success_after_fix :
     let f : Rat → Rat := fun x => if (1:Rat)/3 < x then 1 else -1
-    f 0 * f 1 < 0 ∧ (brentsroot f 0 1 (1/1000) (1/2^50) 1000000).success = false := by decide +kernel
+    f 0 * f 1 < 0 ∧ (brentsroot f 0 1 (1/1000) (1/2^50) 1000000).success = true := by decide +kernel
 
 end DVP.Findings.C14
